@@ -44,6 +44,7 @@ type anchors struct {
 	splat    *ssa.Package
 	spz      *ssa.Package
 	ply      *ssa.Package
+	shTable  map[int64]int64 // degree -> coefficient count, as read from spz.Header.ShDimensions
 }
 
 func (a *anchors) modelingPath() string { return a.modeling.Path() }
